@@ -22,14 +22,17 @@ import (
 // Case is a vector with its rendering and the verdicts of LLVM and of the real parser.
 type Case struct {
 	trsrc.Vector
-	Text     string
-	LLVMOK   bool
-	LLVMDiag string
-	Mod      *ir.Module
-	Err      error
-	Panic    string
-	Printed  string
+	Text       string
+	LLVMOK     bool
+	LLVMDiag   string
+	Mod        *ir.Module
+	Err        error
+	Panic      string
+	Printed    string
 	PrintPanic string
+	// Parsed is the definition order of Mod as the parser left it (printing renumbers the unnamed
+	// global entities in print-group order: variables, aliases, ifuncs, functions)
+	Parsed *trsrc.Module
 }
 
 const genCfg = `SPECIFICATION Spec
@@ -110,6 +113,7 @@ func Run(vs []trsrc.Vector) []*Case {
 		c.LLVMOK, c.LLVMDiag = llvmoracle.Accepts(c.Text)
 		c.Mod, c.Err, c.Panic = ParseReal("vector.ll", c.Text)
 		if c.Mod != nil {
+			c.Parsed = Order(c.Mod)
 			c.PrintPanic, _ = mbt.Guard(func() { c.Printed = c.Mod.String() })
 		}
 		cs[i] = c
@@ -158,16 +162,28 @@ func Order(m *ir.Module) *trsrc.Module {
 // (what a reader of the output sees; the named metadata are listed here).
 func SectionOrder(printed string) *trsrc.Module {
 	o := &trsrc.Module{}
+	// defName returns the name defined by a line `<sigil><name> = ...` (quotes removed)
+	defName := func(l string) string {
+		i := strings.Index(l, " = ")
+		if i < 1 {
+			return ""
+		}
+		n := l[1:i]
+		if len(n) >= 2 && n[0] == '"' && n[len(n)-1] == '"' {
+			n = n[1 : len(n)-1]
+		}
+		return n
+	}
 	for _, l := range strings.Split(printed, "\n") {
 		f := strings.Fields(l)
 		if len(f) < 3 {
 			continue
 		}
 		switch {
-		case strings.HasPrefix(l, "%") && f[1] == "=" && f[2] == "type":
-			o.Types = append(o.Types, strings.TrimPrefix(f[0], "%"))
-		case strings.HasPrefix(l, "$") && f[1] == "=":
-			o.Comdats = append(o.Comdats, strings.TrimPrefix(f[0], "$"))
+		case strings.HasPrefix(l, "%") && strings.Contains(l, " = type "):
+			o.Types = append(o.Types, defName(l))
+		case strings.HasPrefix(l, "$") && strings.Contains(l, " = comdat "):
+			o.Comdats = append(o.Comdats, defName(l))
 		case strings.HasPrefix(l, "attributes #"):
 			o.Attrs = append(o.Attrs, strings.TrimPrefix(f[1], "#"))
 			if i, j := strings.Index(l, "{"), strings.LastIndex(l, "}"); i >= 0 && j > i {
@@ -208,9 +224,8 @@ func eq(a, b []string) bool {
 }
 
 // CompareOrder lists the sections in which the real module's definition order differs from want.
-func CompareOrder(want *trsrc.Module, m *ir.Module, printed string) []string {
+func CompareOrder(want *trsrc.Module, got *trsrc.Module, printed string) []string {
 	var diff []string
-	got := Order(m)
 	sec := SectionOrder(printed)
 	chk := func(name string, w, g []string) {
 		if !eq(w, g) {
